@@ -2,6 +2,7 @@ from . import hubprops
 from .. import scenarios
 
 hubprops.PLAN["C05"] = [
+    {"fam": "repo-tests", "scen": "repo-tests", "num_q": 0, "num_t": 0},
     {"fam": "Routing", "num_q": 50, "num_t": 600, "depth": 80},
     {"fam": "Failures", "num_q": 60, "num_t": 600, "depth": 80},
     {"fam": "death-during-manager-msg", "scen": scenarios.death_during_manager_msg, "num_q": 0, "num_t": 0, "prof_q": 3, "prof_t": 8},
